@@ -10,9 +10,10 @@ judged by TLC against the P-layer of spec/StatsCheck.tla (Trace_Stats); nothing 
 
 Encoding contract with spec/StatsCheck.tla:
   values   v[i] integers in units 1/U (dyadic grid, floats v/U are exact), nan[i] mask;  weights w[i] in 1/WU, wnan[i]
-  results  out/out2 = {neg, hi, lo} with round(|x| * 10^12) = hi * 10^6 + lo (Num.FxObs), isnan/isnan2 = result is
-           not a finite number below 2147;  err/err2 = exception type name or ""
-  smoother outs[i] = {neg, hi, lo, fin},  outg[i] = [floor(x * U), x * U is an integer?];  outi = integer result
+  values   x[i], wx[i] = the same numbers as Num.Z records {n, m}: round(|v/U| * 10^12) in base-10^4 limbs
+  results  out/out2 = Num.Z record of round(|result| * 10^12) (any magnitude), isnan/isnan2 = result is NaN or
+           infinite;  err/err2 = exception type name or ""
+  smoother outs[i] = {n, m, fin},  outg[i] = [floor(x * U), x * U is an integer?];  outi = integer result
   pairs    kind "shift": second call on x + c/U;  kind "scale": second call on x * fn/fd (fn/fd = +-2^k)
 """
 from __future__ import annotations
@@ -48,22 +49,28 @@ REQUIRE_CLAUSES = list(
 BLANK = {"op": "", "est": "", "kind": "single", "U": 1024, "v": [], "x": [], "nan": [], "WU": 1, "w": [], "wx": [], "wnan": [],
          "flag": False, "hasinit": False, "init": 0, "c": 0, "fn": 1, "fd": 1, "wn": 0, "wd": 0}
 INPUT_FIELDS = list(BLANK)
-MAXMAG = 2147.0
 
 
 # ------------------------------------------------------------------ encoders (no judging)
+def _limbs(v):
+    out = []
+    while v:
+        v, d = divmod(v, 10000)
+        out.append(d)
+    return out
+
+
 def _fx(x):
-    """float -> ({neg, hi, lo}, not-a-finite-number-below-2147)."""
+    """float -> (Num.Z record of round(|x| * 10^12), base-10^4 limbs little endian; is-not-a-finite-number)."""
     from fractions import Fraction
     try:
         x = float(x)
     except (TypeError, ValueError):
-        return {"neg": False, "hi": 0, "lo": 0}, True
-    if x != x or math.isinf(x) or abs(x) >= MAXMAG:
-        return {"neg": False, "hi": 0, "lo": 0}, True
-    v = round(abs(Fraction(x)) * 10**12)
-    hi, lo = divmod(int(v), 10**6)
-    return {"neg": bool(x < 0) and v != 0, "hi": hi, "lo": lo}, False
+        return {"n": False, "m": []}, True
+    if x != x or math.isinf(x):
+        return {"n": False, "m": []}, True
+    v = int(round(abs(Fraction(x)) * 10**12))
+    return {"n": bool(x < 0) and v != 0, "m": _limbs(v)}, False
 
 
 def _seq_out(y, unit):
@@ -75,13 +82,17 @@ def _seq_out(y, unit):
         o, bad = _fx(x)
         o["fin"] = not bad
         outs.append(o)
-        if bad:
+        t = x * unit if not bad else 0.0
+        if bad or abs(t) >= 2**31 - 2:
             outg.append([0, False])
         else:
-            t = x * unit
             f = math.floor(t)
             outg.append([int(f), bool(f == t)])
     return outs, outg
+
+
+def _err(e):
+    return type(e).__name__
 
 
 def _zfx(k, unit):
@@ -94,10 +105,6 @@ def _zfx(k, unit):
         q, d = divmod(q, 10000)
         limbs.append(d)
     return {"n": bool(k < 0), "m": limbs}
-
-
-def _err(e):
-    return type(e).__name__
 
 
 # ------------------------------------------------------------------ real code
@@ -136,7 +143,7 @@ def execute(inp):
     import numpy as np
     from cnvlib import descriptives as D, smoothing as S
     rec = {k: inp[k] for k in INPUT_FIELDS}
-    zero = {"neg": False, "hi": 0, "lo": 0}
+    zero = {"n": False, "m": []}
     rec.update(out=dict(zero), isnan=False, out2=dict(zero), isnan2=False, outs=[], outg=[], outi=0, err="", err2="")
     est, U = inp["est"], inp["U"]
     x = np.array([float("nan") if m else k / U for k, m in zip(inp["v"], inp["nan"] or [False] * len(inp["v"]))],
@@ -476,6 +483,11 @@ def structured_inputs():
             for wn, wd in ((3, 1), (2, 1), (1, 2), (100, 1)):
                 kw = {"w": [1] * len(v), "WU": 1} if est == "savgol_w" else {}
                 out.append(mk(est, v, wn=wn, wd=wd, **kw))
+    # weighted Savitzky-Golay with one heavy positive weight: the denominator sum(w * coefficient) nearly cancels at the
+    # two positions where the kernel's negative end coefficient meets the heavy bin; the values are huge but finite
+    w = [64] * 30
+    w[15] = 736
+    out.append(mk("savgol_w", [k * 128 for k in range(30)], wn=7, wd=1, w=w, WU=64))
     return out
 
 
@@ -577,6 +589,7 @@ def run(ctx: Ctx):
                   ("wmed", 3, [0, 1], [0, 1, 2], 1, "weighted median/MAD: length <= 3 over {0,1} x weights {0,1,2}"),
                   ("est", 3, [0, 1, 3], [1, 2], 4, "mad/iqr/gapper/qn/mse/wstd: length <= 3 over {0,1/4,3/4}, single+shift+scale"),
                   ("bw", 4, [0, 1, 2, 8], [1], 1, "biweight location/midvariance: length <= 4 over {0,1,2,8}"),
+                  ("bw", 3, [0, 1, 2, 3], [1], 1024, "biweights: length <= 3 over {0..3}/1024 (epsilon radius)"),
                   ("smooth", 5, [0, 1, 2], [1], 1, "rolling median / padding: all signals of length <= 5 over {0,1,2} x 13 widths"),
                   ("smooth", 8, [0, 1], [1], 1, "rolling median: all binary signals of length <= 8 x 13 widths"),
                   ("wing", 24, [0], [1], 1, "_width2wing: lengths 1..24 x 18 widths (valid and invalid)")]
@@ -620,7 +633,8 @@ def run(ctx: Ctx):
     ctx.rng.shuffle(recs)
     ctx.validate(TRACE, recs, batch=20000, timeout=5400)
     ctx.trusted_base = ["TLC 1.8 evaluation of spec/Stats.tla + StatsCheck.tla (limb arithmetic of Num.tla)",
-                        "grid decoding k/U -> float and 12-digit encoding of results (c19.py _fx, _seq_out)",
+                        "grid decoding k/U -> float, 12-digit fixed-point encoding of inputs and results (c19.py _zfx, _fx, "
+                        "_seq_out; the input encoding is cross-checked against Stats.FxGrid on every enumerated state)",
                         "numpy array construction in the harness", "JSON encoding (ints < 2^31)"]
     ctx.assumptions = [
         "inputs lie on a dyadic grid (multiples of 1/1024, |x| <= 40) so that order statistics, midpoints, quartile "
